@@ -162,6 +162,41 @@ func init() {
 			e.path.Reached = append(e.path.Reached, e.strArg(a[1]))
 			return nil
 		},
+		// Go(fs...): natively the functions run concurrently; here one after the other
+		// under the shared-state monitor (conflicting accesses to state that existed
+		// before the call are recorded)
+		H + "Go": func(e *Engine, fn *ssa.Function, a []Val) Val {
+			fs := a[1].(Slice)
+			e.goBarrier = e.cellSeq
+			e.goWrites, e.goReads = map[*Cell]int{}, map[*Cell]int{}
+			for i := 0; i < fs.len; i++ {
+				e.goPhase = i + 1
+				e.callValue(e.load(fs.arr.kids[fs.off+i]), nil)
+			}
+			e.goPhase = 0
+			return nil
+		},
+		// AssertIndependent: no conflicting access between the pipelines of Go and no
+		// store to package-level state anywhere on the path
+		H + "AssertIndependent": func(e *Engine, fn *ssa.Function, a []Val) Val {
+			id := e.strArg(a[1])
+			rec := e.path.assertRec(id)
+			rec.Reached++
+			bad := ""
+			for w := range e.path.Conflicts {
+				bad = w
+			}
+			for w := range e.path.GlobalStores {
+				bad = "store to package-level state in " + w
+			}
+			if bad == "" {
+				rec.Trivial++
+				return nil
+			}
+			rec.Violated++
+			e.path.addViolation(e, "race", id, e.ensureModel(), bad)
+			return nil
+		},
 		H + "SetAllocLimit": func(e *Engine, fn *ssa.Function, a []Val) Val {
 			e.path.AllocLimit = int(a[1].(*Term).C)
 			return nil
